@@ -339,9 +339,9 @@ def run(rec, tier, seed):
     quick = tier == "quick"
     keys = [k for k in harness.vyxal.elements.elements if k not in SKIP]
     ns = campaign.NCPU * 2
-    n_el = 30 if quick else 800
+    n_el = 22 if quick else 800
     campaign.parallel(rec, _shard_elements, [(seed * 1000, keys[i::ns], n_el) for i in range(ns)])
-    n_cp = 250 if quick else 8000
+    n_cp = 150 if quick else 8000
     campaign.parallel(rec, _shard_copy, [(seed * 1000 + 7 + i, n_cp) for i in range(campaign.NCPU)])
     tl = 4 if quick else 5
     campaign.parallel(rec, _shard_timing_exh, [(s, ns, tl) for s in range(ns)])
